@@ -39,10 +39,11 @@ type P struct {
 
 // R is what the reference (direct Go call) says about one argument tuple.
 type R struct {
-	V     tengo.Object                  // expected value
-	Err   bool                          // the Go function returned an error: expect an Error value
-	Undef bool                          // outside the domain of the Go function / the documentation: only "no panic"
-	Check func(got tengo.Object) string // when set: structural check instead of snapshot equality ("" = ok)
+	V           tengo.Object                  // expected value
+	Err         bool                          // the Go function returned an error: expect an Error value
+	Undef       bool                          // the documentation does not determine the result: only "no panic"
+	OutOfDomain bool                          // the underlying Go function itself panics here: outside the claim, nothing is required
+	Check       func(got tengo.Object) string // when set: structural check instead of snapshot equality ("" = ok)
 }
 
 // Spec is one row of the oracle table, written from docs/stdlib-*.md.
@@ -456,11 +457,12 @@ func snapC(o tengo.Object) string {
 }
 
 // callRef runs the reference under recover: a panic of the Go function means
-// "outside the domain where the underlying Go function is defined".
+// "outside the domain where the underlying Go function is defined" - the
+// property claims nothing there (not even the absence of a panic).
 func callRef(s *Spec, a []interface{}) (r R) {
 	defer func() {
 		if p := recover(); p != nil {
-			r = R{Undef: true}
+			r = R{Undef: true, OutOfDomain: true}
 		}
 	}()
 	return s.Ref(a)
